@@ -239,3 +239,24 @@ plan("C18", "exploration",
      "lies in a requested wallet, is accessible per the reference evaluator and carries its own name and key; every accessible account whose name whole-matches a requested path is returned, "
      "including accounts created after start-up.",
      q, t, real_vs_stub=REAL_W2)
+
+REAL_W3 = ("REAL: the dirk binary built from the working tree (-tags verif), run as short-lived processes on one storage directory (--export/--import-slashing-protection with environment configuration); "
+           "between them a real handler-to-badger stack opened in the worker process on the same directory for signing and probing. No bubble, no scheduler: steps are sequential processes. "
+           "Fault: self-kill of the import at a drawn storage point (VERIF_HOOK_KILL_AT).")
+q, t = tiers(60, 120, 2500, 1500)
+q["require_probes"] = t["require_probes"] = ["imports_succeeded", "imports_rejected", "imports_with_wrong_metadata", "fault_import_killed_at_storage_point", "probes"]
+plan("C10", "exploration",
+     "one case = one seeded history: 1-4 keys with drawn prior signing history (through the real signer), then 1-3 imports of generated interchange files (1-5 data entries, repeated keys, 0-2 blocks "
+     "and attestations per entry with values around the protected ones - newer in one field, older in another -, unprefixed / upper-case / non-hex keys, malformed numbers, wrong version, wrong "
+     "or differently written genesis root), a fifth of them first killed at a drawn storage point and then re-run; each step is a real process. distinct = distinct (file, prior database); "
+     "non-trivial = all. Oracle: no exported field ever decreases across any step; wrong metadata => non-zero exit and unchanged export; after exit 0 the export covers, field by field, the "
+     "key's own history and every value of every successfully imported file; a restarted instance refuses proposals at, and attestations at or below, those values.",
+     q, t, real_vs_stub=REAL_W3, needs_dirk=True)
+q, t = tiers(60, 120, 2500, 1500)
+q["require_probes"] = t["require_probes"] = ["legacy_format_runs", "probes"]
+plan("C11", "exploration",
+     "one case = one seeded history over 1-4 keys: optionally a store pre-populated with old-format (gob) attestation and proposal records of drawn values incl. zeros, then 0-15 well-formed "
+     "single / batched attestation and proposal requests; distinct = distinct history; non-trivial = all. Oracle: every verdict agrees with the reference model started from the stored records; "
+     "the export (rules API, and dirk --export-slashing-protection after shutdown) states exactly the highest slot / source / target per key; the export imports into an empty instance with exit 0 "
+     "and that instance answers a shuffled probe sequence (every value +-1, zero, genesis) exactly as the restarted original.",
+     q, t, real_vs_stub=REAL_W3, needs_dirk=True)
